@@ -1198,8 +1198,13 @@ fn results_array_from_scalars(scalars: &[ScalarValue], num_rows: usize) -> Resul
         return Ok(Arc::new(arrow::array::NullArray::new(num_rows)));
     }
 
-    // All scalars should have the same type
-    match &scalars[0] {
+    // All non-NULL scalars have the same type; a NULL says nothing about it
+    // (deciding from a leading NULL turned the whole column into NULLs).
+    let first_typed = scalars
+        .iter()
+        .find(|s| !matches!(s, ScalarValue::Null))
+        .unwrap_or(&scalars[0]);
+    match first_typed {
         ScalarValue::Int64(_) => {
             use arrow::array::Int64Array;
             let values: Vec<Option<i64>> = scalars
@@ -1262,11 +1267,20 @@ fn evaluate_in_subquery(left: &ArrayRef, right: &ArrayRef, negated: bool) -> Res
     let num_rows = left.len();
     let mut result = Vec::with_capacity(num_rows);
 
+    // SQL three-valued membership: `x IN (empty)` is FALSE whatever x is;
+    // otherwise a NULL x is UNKNOWN, a match is TRUE, and a miss is UNKNOWN
+    // when the set contains a NULL (FALSE only if it does not). NOT IN is the
+    // negation, so `x NOT IN (.., NULL)` never keeps a row.
+    let right_has_null = right.null_count() > 0;
     for i in 0..num_rows {
         let mut found = false;
 
+        if right.is_empty() {
+            result.push(Some(negated));
+            continue;
+        }
         if left.is_null(i) {
-            result.push(Some(false));
+            result.push(None);
             continue;
         }
 
@@ -1311,7 +1325,14 @@ fn evaluate_in_subquery(left: &ArrayRef, right: &ArrayRef, negated: bool) -> Res
             }
         }
 
-        result.push(Some(if negated { !found } else { found }));
+        let member = if found {
+            Some(true)
+        } else if right_has_null {
+            None
+        } else {
+            Some(false)
+        };
+        result.push(member.map(|m| if negated { !m } else { m }));
     }
 
     Ok(Arc::new(BooleanArray::from(result)))
